@@ -45,16 +45,22 @@ def build(prog, N, compiled):
     """Build the Circuit; returns (circ, step_objects) and checks the layer-order invariant."""
     circ = lib.pc.Circuit(N)
     objs = []
+    early = compiled == 2
     for name in prog:
         L = letter(name, N)
         if L[0] == 'meas':
+            if early and objs:
+                # configuration 2: compile() while the circuit is still measurement-free, then go on building
+                # (the compiled maps of the unitary prefix must not be used once a measurement follows)
+                circ.compile()
+            early = False
             circ.measure(*L[1])
             objs.append(('meas', circ.last_layer))
         else:
             g = L[1]()
             circ.take(g)
             objs.append(('gate', g))
-    if compiled:
+    if compiled == 1:
         circ.compile()
     return circ, objs
 
@@ -139,7 +145,7 @@ def n_meas(prog):
 
 def run_program(prog, N, gs0, ps0, r0, compiled, item, viol, counters):
     kind = 'pure' if r0 == 0 else 'mixed'
-    cfg = 'compiled' if compiled else 'plain'
+    cfg = {0: 'plain', 1: 'compiled', 2: 'compiled-before-measure'}[int(compiled)]
     rho0 = stab.rho_of(gs0, ps0, r0)
     nm = n_meas(prog)
 
@@ -213,7 +219,7 @@ def run_program(prog, N, gs0, ps0, r0, compiled, item, viol, counters):
             viol.append(V('C14/differential/%s/%s' % (cfg, kind), item, '%s: circuit gave record %s log2prob %r r=%d, direct measurement gave %s %r r=%d' % (
                 desc, rec, circ.log2prob, int(st.r), rec2, lp2, int(st2.r))))
         # (d) backward: only for pure states
-        if r0 == 0 and not compiled:
+        if r0 == 0 and compiled != 1:
             runs += check_backward(prog, N, circ, st, rec, item, viol, desc)
         counters['leaves'] = counters.get('leaves', 0) + 1
     # completeness: every record with positive probability is produced by exactly one coin string
@@ -351,7 +357,7 @@ def fn_programs(items):
             ins = n3_inputs()
         for gs0, ps0, r0 in ins:
             before = len(viol)
-            runs = run_program(prog, N, gs0, ps0, r0, bool(compiled), item, viol, counters)
+            runs = run_program(prog, N, gs0, ps0, r0, int(compiled), item, viol, counters)
             n += runs
             nt += 1
             if len(viol) - before > 3:
@@ -458,8 +464,8 @@ def legs(tier):
                    bound='all %d programs of length<=%d containing a measurement over %s x 91 inputs (one per density matrix, all ranks); all %d programs of length %d x 13 inputs '
                          '(every 7th density matrix, rotating with the program index); complete coin tree; backward with all records on pure inputs' % (
                              len(Pf), full_len, ALPHA2, len([p for p in Ps if len(p) == sub_len]), sub_len), timeout=6000))
-    citems = [[2, full_len, pi, 1, 0] for pi in range(len(Pf))] + [[2, sub_len, pi, 1, -1] for pi in range(len(Ps)) if len(Ps[pi]) == sub_len and tier != 'quick']
-    out.append(Leg('programs_N2_compiled', fn_programs, citems, chunk=2, src_states=91, bound='the same programs with Circuit.compile() (length<=%d on 91 inputs%s)' % (
+    citems = [[2, full_len, pi, 1, 0] for pi in range(len(Pf))] + [[2, full_len, pi, 2, 0] for pi in range(len(Pf)) if Pf[pi][0][0] != 'M'] + [[2, sub_len, pi, 2, -1] for pi in range(len(Ps)) if len(Ps[pi]) == sub_len and Ps[pi][0][0] != 'M'] + [[2, sub_len, pi, 1, -1] for pi in range(len(Ps)) if len(Ps[pi]) == sub_len and tier != 'quick']
+    out.append(Leg('programs_N2_compiled', fn_programs, citems, chunk=2, src_states=91, bound='the same programs with Circuit.compile() after construction, and with compile() called on the measurement-free prefix before the first measurement is appended (length<=%d on 91 inputs%s)' % (
         full_len, '' if tier == 'quick' else ', length %d on 13 inputs' % sub_len), timeout=6000))
     l1 = programs(2, 1)
     nblk = (34560 + BLK - 1) // BLK
